@@ -1,3 +1,4 @@
+mod c05;
 mod c06;
 mod c11;
 mod c12;
@@ -10,6 +11,7 @@ mod model;
 mod report;
 mod rng;
 mod tool;
+mod tygen;
 mod util;
 
 fn main() {
@@ -21,6 +23,7 @@ fn main() {
     tool::install_panic_hook();
     match args[0].as_str() {
         "extract" => extract::main(&args[1..]),
+        "C05" => c05::main(&args[1..]),
         "C06" => c06::main(&args[1..]),
         "C11" => c11::main(&args[1..]),
         "C12" => c12::main(&args[1..]),
